@@ -817,10 +817,12 @@ class ProtoClassMetadata:
         self.default_gen = self._get_default_gen(cls, fields)
         self.cls_by_field = self._get_cls_by_field(cls, fields)
         # The keys to_dict() emits, in either casing, for each field. Re-casing a key
-        # is not always reversible (address_line_1 -> addressLine1 -> address_line1),
-        # so from_dict() looks keys up here when snake-casing does not hit a field.
-        self.field_name_by_key = {}
-        for casing in (camel_case, snake_case):
+        # is not always reversible (address_line_1 -> addressLine1 -> address_line1)
+        # and may even hit another field (b_a_a -> bAA -> b_aa), so from_dict() looks
+        # keys up here first and only snake-cases a key it does not find. A key that
+        # is a field name always means that field.
+        self.field_name_by_key = {name: name for name in by_field_name}
+        for casing in (snake_case, camel_case):
             for name in by_field_name:
                 self.field_name_by_key.setdefault(casing(name).rstrip("_"), name)
 
@@ -1725,9 +1727,9 @@ class Message(ABC):
     def _from_dict_init(cls, mapping: Mapping[str, Any]) -> Mapping[str, Any]:
         init_kwargs: Dict[str, Any] = {}
         for key, value in mapping.items():
-            field_name = safe_snake_case(key)
-            if field_name not in cls._betterproto.meta_by_field_name:
-                field_name = cls._betterproto.field_name_by_key.get(key, field_name)
+            field_name = cls._betterproto.field_name_by_key.get(key)
+            if field_name is None:
+                field_name = safe_snake_case(key)
             try:
                 meta = cls._betterproto.meta_by_field_name[field_name]
             except KeyError:
@@ -2027,9 +2029,9 @@ class Message(ABC):
         """
         self._serialized_on_wire = True
         for key in value:
-            field_name = safe_snake_case(key)
-            if field_name not in self._betterproto.meta_by_field_name:
-                field_name = self._betterproto.field_name_by_key.get(key, field_name)
+            field_name = self._betterproto.field_name_by_key.get(key)
+            if field_name is None:
+                field_name = safe_snake_case(key)
             meta = self._betterproto.meta_by_field_name.get(field_name)
             if not meta:
                 continue
